@@ -243,3 +243,93 @@ func zzH_C11_sort() {
 type zzSorter struct{ Frame }
 
 func (s zzSorter) Len() int { return s.Frame.Len() }
+
+// --- pointer-carrying column type (string): goes through the typedmemmove /
+// typedslicecopy paths instead of the word-sized assign fast path ---
+
+type zzSStore struct {
+	names []string
+	vals  []int64
+	rows  []zzSRow
+	f     Frame
+}
+
+type zzSRow struct {
+	s string
+	v int64
+}
+
+func zzNewSStore(n int, tag string) *zzSStore {
+	st := &zzSStore{names: make([]string, n), vals: make([]int64, n), rows: make([]zzSRow, n)}
+	for i := 0; i < n; i++ {
+		st.names[i] = zz.AnyStringAtom(tag+"_name", 4)
+		st.vals[i] = zz.AnyInt64(tag + "_val")
+		st.rows[i] = zzSRow{st.names[i], st.vals[i]}
+	}
+	st.f = Slices(st.names, st.vals)
+	return st
+}
+
+func (st *zzSStore) same(label string) {
+	ok := true
+	for i := range st.rows {
+		ok = zz.And(ok, zz.And(st.names[i] == st.rows[i].s, st.vals[i] == st.rows[i].v))
+	}
+	zz.Assert(ok, label)
+}
+
+// zzH_C11_strings: Copy (single-row fast path and general path), Swap, Zero and
+// AppendFrame on views of a frame with a string key column.
+func zzH_C11_strings() {
+	const n = 4
+	st := zzNewSStore(n, "s")
+	a := zz.AnyIntIn("a", 0, n)
+	b := zz.AnyIntIn("b", a, n)
+	v := st.f.Slice(a, b)
+	if a > 0 {
+		zz.Reach("view with offset > 0")
+	}
+	switch zz.AnyIntIn("op", 0, 3) {
+	case 0: // copy from another store
+		src := zzNewSStore(3, "t")
+		sa := zz.AnyIntIn("sa", 0, 3)
+		sb := zz.AnyIntIn("sb", sa, 3)
+		cnt := Copy(v, src.f.Slice(sa, sb))
+		want := b - a
+		if sb-sa < want {
+			want = sb - sa
+		}
+		zz.Assert(cnt == want, "Copy returns min(len(dst), len(src))")
+		for k := 0; k < want; k++ {
+			st.rows[a+k] = src.rows[sa+k]
+		}
+		if want == 1 && b-a == 1 && sb-sa == 1 {
+			zz.Reach("single-row fast path")
+		}
+		st.same("Copy of string rows writes exactly dst[0:n)")
+		src.same("Copy leaves the source unchanged")
+	case 1: // swap
+		if b-a == 0 {
+			return
+		}
+		i := zz.AnyIntIn("i", 0, b-a-1)
+		j := zz.AnyIntIn("j", 0, b-a-1)
+		v.Swap(i, j)
+		st.rows[a+i], st.rows[a+j] = st.rows[a+j], st.rows[a+i]
+		st.same("Swap on a view with a string column swaps exactly the two rows")
+	case 2: // zero
+		v.Zero()
+		for k := a; k < b; k++ {
+			st.rows[k] = zzSRow{}
+		}
+		st.same("Zero on a view with a string column zeroes exactly the view's rows")
+	case 3: // less / hash are position independent
+		if b-a == 0 {
+			return
+		}
+		i := zz.AnyIntIn("i", 0, b-a-1)
+		c := Slices([]string{"x", st.rows[a+i].s}, []int64{0, 0})
+		zz.Assert(v.Hash(i) == c.Hash(1), "Hash of a string key does not depend on frame, offset or position")
+		st.same("Hash does not modify the store")
+	}
+}
